@@ -598,7 +598,12 @@ def c01_state(ctx):
     state_discipline(ctx, ('bespokeasm.assembler.bytecode', 'bespokeasm.assembler.model', 'bespokeasm.expression', 'bespokeasm.utilities', 'bespokeasm.assembler.line_object.instruction_line'))
 
 
-RULES = [c01_1, c01_2, c01_3, c01_4, c01_5, c01_6, c01_7, c01_8, c01_state]
+def c01_macro_steps(ctx):
+    """An instruction inside a macro is encoded as it is on its own: with its own address and size (C10.1)."""
+    from rules.c10 import c10_1
+    c10_1(ctx)
+
+RULES = [c01_1, c01_2, c01_3, c01_4, c01_5, c01_6, c01_7, c01_8, c01_state, c01_macro_steps]
 
 _OP = 'assembler/model/operand_parser.py'
 _GI = 'assembler/bytecode/generator/instruction.py'
